@@ -53,6 +53,25 @@ def jsonable(x):
     return repr(x)
 
 
+def readable(x):
+    """like jsonable but floats stay plain numbers (for the human-readable samples in evidence files)."""
+    if isinstance(x, dict):
+        return {str(k): readable(v) for k, v in x.items()}
+    if isinstance(x, (list, tuple)):
+        return [readable(v) for v in x]
+    if isinstance(x, np.ndarray):
+        return readable(x.tolist())
+    if isinstance(x, (np.bool_, bool)):
+        return bool(x)
+    if isinstance(x, (np.integer,)):
+        return int(x)
+    if isinstance(x, (np.floating, float)):
+        return float(x) if math.isfinite(float(x)) else repr(float(x))
+    if x is None or isinstance(x, (int, str)):
+        return x
+    return repr(x)
+
+
 def unjson(x):
     """Inverse of jsonable for the float / bytes wrappers."""
     if isinstance(x, dict):
@@ -158,7 +177,7 @@ class Ctx:
 
     def sample(self, case, every=None):
         if len(self.samples) < 8:
-            self.samples.append(jsonable(case))
+            self.samples.append(readable(case))
 
     def note(self, s):
         self.notes.append(s)
